@@ -166,7 +166,26 @@ def task_pe(ctx, mesh_shape, cfg, levels, lname, what):
     else:
       a = leaves(eqm.explicit_terms(sm)); b = leaves(eq0.explicit_terms(s0))
     return tuple(dn(x) for x in a), b
-  prove_close(ctx, f'primitive_equations.{what}_terms_equal_unsharded', both, xs, sp, config=conf, scale_floor=1.0)
+  try:
+    prove_close(ctx, f'primitive_equations.{what}_terms_equal_unsharded', both, xs, sp, config=conf, scale_floor=1.0)
+  except ValueError as e:
+    # the real sharded program cannot even be traced: replay = call it on a concrete state
+    zs = mesh_shape[0]
+    msg = str(e).split('\n')[0][:200]
+    rngc = np.random.default_rng(3)
+    conc = [rngc.uniform(-0.1, 0.1, a.shape) for a in xs]
+    raised = None
+    try:
+      both(*[jnp.asarray(c) for c in conc])
+    except ValueError as e2:
+      raised = str(e2).split('\n')[0][:200]
+    if raised is None:
+      raise
+    name = f'primitive_equations.{what}_terms_equal_unsharded'
+    ctx.clause(name, 'failed', config=conf, queries=0)
+    ctx.violation(name, dict(config=conf, kind='raises', indivisible_levels=bool(K % zs != 0), where=('dot_cumsum' if 'dot_cumsum' in raised else 'other')),
+                  dict(inputs=[c.tolist() for c in conc], error=raised),
+                  f'{name}: the sharded computation raises instead of returning the unsharded values (K={K} layers on a mesh with z={zs}): {raised}')
 
 
 def task_shapes(ctx):
@@ -210,15 +229,16 @@ def make_tasks(tier, seed):
         tasks.append(dict(name=f"grid-ops-{'x'.join(map(str, m))}-base{base}-t", fn='task_grid_ops', kw=dict(mesh_shape=m, cfg=cfg, base=base, K=3)))
   for m in ((1, 2, 2), (2, 4, 1), (1, 6, 1), (1, 1, 6), (1, 2, 4)):
     tasks.append(dict(name=f"einsum-{'x'.join(map(str, m))}", fn='task_sharded_einsum', kw=dict(mesh_shape=m)))
-  for m, K in (((2, 1, 1), 4), ((2, 2, 2), 6), ((4, 1, 2), 8)):
-    tasks.append(dict(name=f"cumsum-{'x'.join(map(str, m))}", fn='task_cumsum', kw=dict(mesh_shape=m, K=K)))
+  for m, K in (((2, 1, 1), 4), ((2, 2, 2), 6), ((4, 1, 2), 8), ((2, 1, 1), 3), ((4, 1, 2), 6)):      # the last two: length not divisible by the shard count
+    tasks.append(dict(name=f"cumsum-{'x'.join(map(str, m))}-K{K}", fn='task_cumsum', kw=dict(mesh_shape=m, K=K)))
   for m, ln in (((2, 1, 1), 'dy4'), ((2, 2, 1), 'dy2'), ((1, 2, 2), 'dy3')):
     tasks.append(dict(name=f"pe-implicit-{'x'.join(map(str, m))}-{ln}", fn='task_pe', kw=dict(mesh_shape=m, cfg=cfg_small, levels=LS[ln].tolist(), lname=ln, what='implicit')))
   tasks.append(dict(name='pe-explicit-2x2x1-dy2', fn='task_pe', kw=dict(mesh_shape=(2, 2, 1), cfg=cfg_small, levels=LS['dy2'].tolist(), lname='dy2', what='explicit')))
   tasks.append(dict(name='pe-step-2x2x1-dy2', fn='task_pe', kw=dict(mesh_shape=(2, 2, 1), cfg=cfg_small, levels=LS['dy2'].tolist(), lname='dy2', what='step')))
+  tasks.append(dict(name='pe-implicit-2x1x2-dy3-indivisible', fn='task_pe', kw=dict(mesh_shape=(2, 1, 2), cfg=cfg_small, levels=LS['dy3'].tolist(), lname='dy3', what='implicit')))
+  tasks.append(dict(name='pe-explicit-2x1x2-dy3-indivisible', fn='task_pe', kw=dict(mesh_shape=(2, 1, 2), cfg=cfg_small, levels=LS['dy3'].tolist(), lname='dy3', what='explicit')))
   if tier != 'quick':
     tasks.append(dict(name='pe-step-1x2x2-dy3', fn='task_pe', kw=dict(mesh_shape=(1, 2, 2), cfg=cfg_small, levels=LS['dy3'].tolist(), lname='dy3', what='step')))
-    tasks.append(dict(name='pe-explicit-2x1x2-dy3', fn='task_pe', kw=dict(mesh_shape=(2, 1, 2), cfg=cfg_small, levels=LS['dy3'].tolist(), lname='dy3', what='explicit')))
   tasks.append(dict(name='shapes', fn='task_shapes', kw={}))
   return tasks
 
